@@ -82,7 +82,12 @@ func pubRoundTrip(k *kp, msg, sig []byte) string {
 	return ""
 }
 
-func privRoundTrip(k *kp, msg []byte) string {
+// privRoundTrip: marshal/unmarshal of the private key through both exported paths. The
+// second path (PrivKeyUnmarshallers) is what the first one dispatches to; with
+// signOnce the key it yields is compared but does not sign again (RSA keys of ~8192
+// bits: 0.1 s per signature).
+func privRoundTrip(k *kp, msg []byte, signOnce bool) string {
+	signed := false
 	m, err := ic.MarshalPrivateKey(k.priv)
 	if err != nil {
 		return "MarshalPrivateKey: " + err.Error()
@@ -103,12 +108,15 @@ func privRoundTrip(k *kp, msg []byte) string {
 		if !k2.GetPublic().Equals(k.pub) {
 			return path + ": GetPublic of the unmarshalled key is not Equal to the original public key"
 		}
-		sig, err := k2.Sign(msg)
-		if err != nil {
-			return path + ": Sign with unmarshalled key: " + err.Error()
-		}
-		if ok, err := k.pub.Verify(msg, sig); !ok || err != nil {
-			return fmt.Sprintf("%s: signature of the unmarshalled key does not verify under the original public key (ok=%v err=%v)", path, ok, err)
+		if !signed || !signOnce {
+			signed = true
+			sig, err := k2.Sign(msg)
+			if err != nil {
+				return path + ": Sign with unmarshalled key: " + err.Error()
+			}
+			if ok, err := k.pub.Verify(msg, sig); !ok || err != nil {
+				return fmt.Sprintf("%s: signature of the unmarshalled key does not verify under the original public key (ok=%v err=%v)", path, ok, err)
+			}
 		}
 		if id, err := peer.IDFromPrivateKey(k2); err != nil || id != k.id {
 			return path + ": IDFromPrivateKey differs after the round trip"
@@ -150,7 +158,7 @@ func distinctKeys(a, b *kp) string {
 func TestKeyRoundTrip(t *testing.T) {
 	name := t.Name()
 	hx.Check(t, 1500, 40000, 0, func(rt *rapid.T) {
-		k := drawKey(rt, "k")
+		k := drawSigner(rt, "k")
 		o := drawKey(rt, "other")
 		msg := drawBytes(rt, "msg", true)
 		sig, err := k.priv.Sign(msg)
@@ -160,7 +168,7 @@ func TestKeyRoundTrip(t *testing.T) {
 		if s := pubRoundTrip(k, msg, sig); s != "" {
 			rt.Fatalf("%s: %s", k.tag, s)
 		}
-		if s := privRoundTrip(k, msg); s != "" {
+		if s := privRoundTrip(k, msg, slowSigner(k)); s != "" {
 			rt.Fatalf("%s: %s", k.tag, s)
 		}
 		if s := distinctKeys(k, o); s != "" {
@@ -174,7 +182,7 @@ func TestKeyRoundTrip(t *testing.T) {
 			rel = "same-key"
 		}
 		// a second key is compared: that part is the non-trivial one (not a plain round trip)
-		stats.Case(name, fp(k.tag, o.tag, msg), o.tag != k.tag, k.typ, "other:"+rel)
+		stats.Case(name, fp(k.tag, o.tag, msg), o.tag != k.tag, k.typ, classLabel(k.cls), "other:"+rel)
 		if stats.WantSample(name) {
 			stats.Sample(name, map[string]any{"key": k.tag, "other": o.tag, "msg": short(msg)})
 		}
@@ -192,7 +200,7 @@ func verifies(pub ic.PubKey, msg, sig []byte) bool {
 func TestSignVerify(t *testing.T) {
 	name := t.Name()
 	hx.Check(t, 3000, 80000, 0, func(rt *rapid.T) {
-		k := drawKey(rt, "k")
+		k := drawSigner(rt, "k")
 		msg := drawBytes(rt, "msg", true)
 		sig, err := k.priv.Sign(msg)
 		if err != nil {
@@ -261,7 +269,7 @@ func TestSignVerify(t *testing.T) {
 					rt.Fatalf("%s: arbitrary bytes %s verify as a signature over %s", k.tag, short(junk), short(msg))
 				}
 			}
-			stats.Case(name, fp(k.tag, msg, kind, desc), true, k.typ, kind)
+			stats.Case(name, fp(k.tag, msg, kind, desc), true, k.typ, classLabel(k.cls), kind)
 		}
 		if stats.WantSample(name) {
 			stats.Sample(name, map[string]any{"key": k.tag, "msg": short(msg), "probes": n})
@@ -513,7 +521,7 @@ func TestKeyMutation(t *testing.T) {
 			} else if acc {
 				verdict = "accepted-other-key"
 			}
-			stats.Case(name, fp(k.tag, side, mu.out), !bytes.Equal(mu.out, m), k.typ+"/"+side, "op:"+mu.op, verdict)
+			stats.Case(name, fp(k.tag, side, mu.out), !bytes.Equal(mu.out, m), k.typ+"/"+side, classLabel(k.cls), "op:"+mu.op, verdict)
 			if stats.WantSample(name) {
 				stats.Sample(name, map[string]any{"key": k.tag, "side": side, "op": mu.op, "desc": mu.desc, "verdict": verdict})
 			}
@@ -527,7 +535,7 @@ func TestKeyEveryPosition(t *testing.T) {
 	name := t.Name()
 	idx := 0
 	for ti, typ := range sweepTypes(hx.Pick(1, 3)) {
-		k := freshKey(typ, uint64(4242+ti))
+		k := freshKeyClass(sweepClass(typ, ti/len(keyTypes)), uint64(4242+ti))
 		msg := []byte("c08 sweep " + k.tag)
 		sig, err := k.priv.Sign(msg)
 		if err != nil {
@@ -585,6 +593,19 @@ func TestKeyEveryPosition(t *testing.T) {
 			}
 		}
 	}
+}
+
+// sweepClass: the class of the round-th sample key of a type in the every-position
+// sweeps: the default class first (the only round of the quick tier), then other
+// curves / the RSA size one step above the minimum.
+func sweepClass(typ string, round int) string {
+	switch typ {
+	case "ecdsa":
+		return []string{"ecdsa/P-256", "ecdsa/P-384", "ecdsa/P-521", "ecdsa/P-224"}[round%4]
+	case "rsa":
+		return []string{"rsa/2048", "rsa/2049"}[round%2]
+	}
+	return typ
 }
 
 // sweepTypes lists the key types n times (n sample keys per type in the sweeps).
